@@ -5,6 +5,7 @@
 (*              before, after (len(exprStack)), ok, val (<<n, d>>), exc,   *)
 (*              resid_ok (the float is within 1e-9 of val)]                *)
 (*   validate  [tokens (strings), accepted, exc]                           *)
+(*   validate_cfg [tests (seq of seq of entries), accepted, exc]            *)
 EXTENDS FxParser, Json, IOUtils, TLCExt
 
 TraceLog == ndJsonDeserialize(IOEnv.TRACE_FILE)
@@ -48,6 +49,9 @@ Step ==
             [] e.ev = "validate" -> /\ Clause(e, "fx_validate", e.accepted <=> Accepts(e.tokens))
                                     /\ Clause(e, "fx_validate_exc", ~e.accepted => e.exc = "ValueError")
                                     /\ UNCHANGED fvars
+            [] e.ev = "validate_cfg" -> /\ Clause(e, "fx_validate", e.accepted <=> AcceptsCfg(e.tests))
+                                        /\ Clause(e, "fx_validate_exc", ~e.accepted => e.exc = "ValueError")
+                                        /\ UNCHANGED fvars
        /\ IF l = Len(TraceLog) THEN PrintT(<<"DONE", l>>) ELSE TRUE
     /\ l' = l + 1
 =============================================================================
